@@ -267,6 +267,22 @@ def run_real(scn, h, cis):
         p._map_guard = False
     second = None
     drv.first_deviated, drv.first_cis = drv.deviated, list(drv.real_cis)
+    if scn.get('abort_twice') and outcome == 'aborted' and any(sw.st == 'run' for sw in drv.workers.values()):
+        # a second run() abandoned as well - by the callback's exception on the first 'enqueued' event, i.e. before any
+        # of the answers still owed to the first abandoned run has been read
+        def cb2(worker, event, *a):
+            if event == 'enqueued':
+                raise Abort('the user callback fails again')
+        drv.budget += 40
+        drv.deviated = True
+        try:
+            p.run(iter(range(201, 204)), worker_callback=cb2, worker_extra_pending_inputs=scn['extra'])
+        except Abort:
+            pass
+        except (Hang, Exception) as e:  # noqa
+            outcome = 'internal_error:second abandoned run:' + type(e).__name__
+        finally:
+            p._map_guard = False
     if scn.get('second_run') and outcome in ('ok', 'poolerror', 'aborted') and any(sw.st == 'run' for sw in drv.workers.values()):
         # the pool is reusable: a later run() must return results of ITS inputs only (no bookkeeping left behind)
         n2 = scn['n'] or 2
@@ -346,6 +362,10 @@ def _configs(tier):
     # run() abandoned by an exception of the user's callback with inputs in flight, then run() again on the same pool
     add('W2 N4 extra1 aborted after 1 result', n=4, kills=0, mc=False)
     c[-1][2].update(abort_after=1, second_run=True)
+    add('W2 N4 extra1 aborted after 1 result, aborted again at once, then run', n=4, kills=0, mc=False)
+    c[-1][2].update(abort_after=1, abort_twice=True, second_run=True)
+    add('W1 N3 extra2 aborted after 1 result, aborted again at once, then run', W=(1,), n=3, extra=2, kills=0, mc=False)
+    c[-1][2].update(abort_after=1, abort_twice=True, second_run=True)
     add('W2 N3 refuse(1,1) noretry', retry=False, kills=0, refuse=[(1, 1)], refname='Ref_w1_x1', mc=False)
     add('W2 N2 refuse all', n=2, kills=0, refuse=[(1, 1), (1, 2), (2, 1), (2, 2)], refname='Ref_all', mc=False)
     if tier == 'thorough':
